@@ -133,6 +133,9 @@ theorem insertionGen_run (step : Nat → St → Res St) (P : Nat → St → Prop
     (lens : List Rat) (h3 : 3 ≤ n) (hP0 : P 2 (initSt rooted lens))
     (hstep : ∀ i s, 2 ≤ i → i < n → P i s → ∃ s', step i s = .ok s' ∧ P (i + 1) s') :
     ∃ s, P n s ∧ insertionGen step (n : Int) rooted lens = finishIns rooted s.t := by
+  have h3' : ¬ ((n : Int) < 3) := by omega
+  unfold insertionGen
+  rw [if_neg h3']
   obtain ⟨s, hs, hp⟩ := iter_inv step P n hstep (n - 2) 2 (initSt rooted lens) (by omega) (by omega) hP0
   have hn : 2 + (n - 2) = n := by omega
   rw [hn] at hp
@@ -140,7 +143,7 @@ theorem insertionGen_run (step : Nat → St → Res St) (P : Nat → St → Prop
   have h2 : ¬ ((n : Int) < 3) := by omega
   have h4 : (n : Int).toNat - 2 = n - 2 := by simp
   refine ⟨s, hp, ?_⟩
-  unfold insertionGen
+  unfold insertionGenDoc2
   simp only [h1, h2, if_false, decide_false, Bool.false_and, h4, hs]
   rfl
 
